@@ -37,14 +37,17 @@ UNPRIV_ENCODINGS = ['LdrtA1', 'LdrtA2', 'LdrtT1', 'LdrbtA1', 'LdrbtA2', 'LdrbtT1
                     'StrbtT1', 'StrhtA1', 'StrhtA2', 'StrhtT1']
 
 
+BOOKKEEPING = set()      # filled in main() from the code: sa/bookkeeping.instruction_flags
+
+
 def is_priv_write(path):
     """Is `path` (an entry of an effect summary) privileged state?"""
     if path.startswith('cpsr.'):
         return path.split('.', 1)[1] in PRIV_FLAGS
     if path.startswith('registers.'):
         p = path[len('registers.'):]
-        if p in ('_R[]', 'changed_registers[]', 'changed_registers', 'event_register'):
-            return False       # general-purpose registers of the current bank / bookkeeping
+        if p in ('_R[]', 'event_register') or p.replace('[]', '') in BOOKKEEPING:
+            return False       # general-purpose registers of the current bank / per-instruction flags (sa/bookkeeping.py)
         return True
     return False               # processor-local scratch (opcode, wait flags, ...)
 
@@ -268,8 +271,15 @@ def check_privilege_flow(run, repo):
 def main(repo_path, tier, seed, replay=None):
     run = Run('C19', tier, level='other', seed=seed)
     repo = Repo(repo_path)
+    import re
+    from .. import memo
+    memo.check(run, repo, 'C19-MEMO', lambda rel, q: re.search(r'(check_permission|unpriv|current_mode_is|cpsr_write_by_instr|spsr_write_by_instr|is_secure|bad_mode)', q) is not None,
+               'the privilege predicates and the permission check')
     eff = Effects(repo)
     bind = Binding(repo)
+    from .. import bookkeeping
+    BOOKKEEPING.clear()
+    BOOKKEEPING.update(bookkeeping.instruction_flags(repo))
     allowed = check_writers(run, repo, eff)
     check_sinks(run, repo, eff, allowed)
     check_write_hsr_callers(run, repo, eff)
